@@ -22,12 +22,19 @@ PROP = 'C04'
 RULE = ('one evaluation = one (program, argument tuple, caller context) pair on which implementation and reference evaluator were compared; '
         'non-trivial = pairs whose program rounds under at least two different contexts or calls a helper, and on which the reference returned a value')
 
+XOPS = ('cbrt', 'roundint', 'nearbyint', 'fabs', 'copysign', 'fdim', 'fmod', 'remainder', 'hypot', 'fmin', 'fmax', 'mod', 'powop', 'pow',
+        'nan', 'inf', 'round_exact', 'fst', 'snd')
+XPREDS = ('isnan', 'isinf', 'isfinite', 'signbit')
+
 PROFILES = [
     dict(),
     dict(helpers=3, helper_ctx_prob=0.6, helper_chain=True, w_call=3, mutate_helper_prob=0.5),
     dict(w_with=6, computed_ctx_prob=0.3, as_alias_prob=0.3, w_early_return=2.5, w_for=4, w_while=2, max_depth=4, return_in_arm_prob=0.25),
     dict(w_alias=3, w_index_assign=4, w_listdef=3, const_list_prob=0.2, w_tuple=2, nested_lists=True, w_for=4, comp_iter_ifexpr_prob=0.5, w_tuplelist=1, reduce_prob=0.15, comp_target_shadows_prob=0.3),
     dict(w_const=3, w_freevar=1.5, w_copy=2, w_aug=3, expr_depth=4),
+    # the remaining numeric builtins and predicates of the parser tables (every one is E-Op / E-Pred in derived-semantics.rst)
+    dict(extra_ops=XOPS, extra_prob=0.35, preds=XPREDS, pred_prob=0.3),
+    dict(extra_ops=XOPS, extra_prob=0.25, preds=XPREDS, pred_prob=0.2, w_with=5, helpers=2, w_call=2),
 ]
 ARGS = [('R', 'R', 'L'), ('R', 'L'), ('R', 'R'), ('R', 'B', 'L'), ('L', 'L', 'R'), ('R', 'I', 'L'), ('I', 'R', 'R'), ('R', 'T', 'L'), ('R', 'LL')]
 
@@ -236,7 +243,9 @@ def main(tier: str) -> int:
     if not res.violations:
         ops = res.extra.get('ops_seen', {})
         need = ['add', 'sub', 'mul', 'div', 'neg', 'abs', 'sqrt', 'fma', 'round', 'floor', 'ceil', 'trunc', 'sum', 'min', 'max',
-                'cmpLt', 'cmpLtE', 'cmpGt', 'cmpGtE', 'cmpEq', 'cmpNotEq']
+                'cmpLt', 'cmpLtE', 'cmpGt', 'cmpGtE', 'cmpEq', 'cmpNotEq',
+                'cbrt', 'roundint', 'nearbyint', 'copysign', 'fdim', 'fmod', 'remainder', 'mod', 'hypot', 'pow', 'const_nan', 'const_inf',
+                'isnan', 'isinf', 'isfinite', 'signbit', 'fst_snd', 'cast']
         missing = [o for o in need if ops.get(o, 0) < 20]
         if missing:
             res.inconclusive.append(f'operators observed fewer than 20 times: {missing}')
